@@ -338,18 +338,21 @@ func Check(run *report.Run, p Prop, nCases int) error {
 						run.KnownHits["F14"]++
 					} else {
 						// RouterJSR311 with every If-condition true is excluded by C09_routable_partial
+						// "every If-condition true": every condition a route of the table in force names holds for
+						// THIS request (a route names its conditions by index into the request's list; an index the
+						// request does not have reads as false, in the harness closures and in the model alike)
 						condsTrue := true
-						for _, b := range rq.R.Conds {
-							condsTrue = condsTrue && b
-						}
-						hasConds := false
-						for _, s := range e.C.Table.Services {
+						for _, s := range e.C.TableAt(i).Services {
 							for _, rt := range s.Routes {
-								hasConds = hasConds || len(rt.Conds) > 0
+								for _, ci := range rt.Conds {
+									if ci < 0 || ci >= len(rq.R.Conds) || !rq.R.Conds[ci] {
+										condsTrue = false
+									}
+								}
 							}
 						}
 						switch {
-						case e.C.Table.Router == "jsr" && (condsTrue && len(rq.R.Conds) > 0 || !hasConds):
+						case e.C.Table.Router == "jsr" && condsTrue:
 							run.Count("granted-method-not-routed:one-root:jsr:UNEXPECTED(C09_routable_partial)")
 							one := e.C.Single(i)
 							run.AddViolation(report.Violation{Kind: "correspondence", NoInput: true,
